@@ -279,6 +279,11 @@ namespace bluetoe {
                 {
                     return characteristic_value_read_access( args, std::integral_constant< bool, has_read_access >() );
                 }
+                else if ( args.type == details::attribute_access_type::notification_read )
+                {
+                    // no_read_access removes the read access for clients, not the ability to notify / indicate the value
+                    return characteristic_value_read_access( args, std::true_type() );
+                }
                 else if ( args.type == details::attribute_access_type::write )
                 {
                     return characteristic_value_write_access( args, std::integral_constant< bool, has_write_access >() );
@@ -364,10 +369,12 @@ namespace bluetoe {
                 if ( security_result != details::attribute_access_result::success )
                     return security_result;
 
-                if ( !has_read_access )
+                const bool notification_read = args.type == details::attribute_access_type::notification_read;
+
+                if ( !has_read_access && !notification_read )
                     return details::attribute_access_result::read_not_permitted;
 
-                if ( args.type != details::attribute_access_type::read )
+                if ( args.type != details::attribute_access_type::read && !notification_read )
                     return details::attribute_access_result::write_not_permitted;
 
                 if ( args.buffer_offset > sizeof( T ) )
@@ -592,8 +599,12 @@ namespace bluetoe {
                     if ( security_result != details::attribute_access_result::success )
                         return security_result;
 
-                    if ( args.type == attribute_access_type::read )
+                    if ( args.type == attribute_access_type::read || args.type == attribute_access_type::notification_read )
                     {
+                        // with no_read_access, the read handler provides the value for notifications and indications only
+                        if ( no_read && args.type == attribute_access_type::read )
+                            return attribute_access_result::read_not_permitted;
+
                         return static_cast< attribute_access_result >(
                             invoke_read_handler< read_handler_type >::template call_read_handler< Server >( args.buffer_offset, args.buffer_size, args.buffer, args.buffer_size, args.server ) );
                     }
